@@ -128,6 +128,12 @@ func (l *ExpandedLexer) nextToken() Token {
 		tok.Type = PLUS
 		tok.Literal = string(l.ch)
 		l.readChar()
+	case '%':
+		// the modulo operator keeps its symbol in the expanded syntax
+		// (only a line-leading % is spelled "use")
+		tok.Type = PERCENT
+		tok.Literal = string(l.ch)
+		l.readChar()
 	case '*':
 		tok.Type = STAR
 		tok.Literal = string(l.ch)
@@ -406,6 +412,10 @@ func (l *ExpandedLexer) readIdentifier() Token {
 		tok.Type = MODULE
 	case "const":
 		tok.Type = CONST
+	case "break":
+		tok.Type = BREAK
+	case "continue":
+		tok.Type = CONTINUE
 	case "assert":
 		// assert keyword - uses dedicated ASSERT token (defined in token.go:78)
 		tok.Type = ASSERT
